@@ -78,6 +78,7 @@ class Profile:
     p_early_term: float = 0.02
     p_combo_ops: float = 0.15
     p_consecutive_ops: float = 0.35
+    p_null_run: float = 0.04
     p_divergent_sig: float = 0.5        # inside a split, sibling sub-spines may get different signatures
     max_width: int = 7
     rejoin_before_barline: bool = False
@@ -520,6 +521,14 @@ class _Gen:
                                 doc.tags.add('consecutive_operator_rows')
                 self.data_line()
                 total_rows += 1
+                if rng.random() < p.p_null_run:
+                    # a run of consecutive all-null lines (null data lines, optionally a null interpretation line)
+                    for _ in range(rng.randint(2, 3)):
+                        if rng.random() < 0.25:
+                            self.add(Line('interp', [Cell('nullinterp', '*') for _c in self.paths]))
+                        else:
+                            self.add(Line('data', [Cell('null', '.') for _c in self.paths]))
+                    doc.tags.add('run_of_null_lines')
         # closing
         if p.rejoin_before_barline:
             self.join_all()
